@@ -19,7 +19,8 @@ A1 = Schema('A1', [
     Opt('sec', 'sec', '', sub=[Opt('int', 'x', '', 1)]),
     Opt('sec', 'm', 'M', sub=[Opt('int', 'x', '', 1)])])
 
-STARTS = [b'', b'il = {3}', b'mt a { x = 3 } mt b { } m { }', b'i = 9 il += {4} sec { x = 2 } sl = {p, q}']
+STARTS = [b'', b'il = {3}', b'mt a { x = 3 } mt b { } m { }', b'i = 9 il += {4} sec { x = 2 } sl = {p, q}',
+          b'mt a { } mt b { x = 2 } mt c { x = 3 } m { x = 5 } m { x = 6 } m { x = 7 }']
 
 CMP_MODE = DM_MOD | DM_NOSECMOD
 KEY_MODE = DM_MOD | DM_RESET | DM_ANNOT
@@ -59,6 +60,7 @@ def ops_alphabet(full=True):
     # sections
     O.append(('addtsec', b'mt', b'a'))
     O.append(('addtsec', b'mt', b'b'))
+    O.append(('addtsec', b'mt', b'c'))
     O.append(('addtsec', b'i', b'a'))              # not a section
     O.append(('addtsec', b's', b'hello'))
     O.append(('addtsec', b'zz', b'a'))
@@ -68,6 +70,7 @@ def ops_alphabet(full=True):
     O.append(('rmnsec', b'm', 0))
     O.append(('rmnsec', b'i', 0))                  # not a section
     O.append(('rmtsec', b'mt', b'a'))
+    O.append(('rmtsec', b'mt', b'b'))
     O.append(('rmtsec', b'mt', b'zz'))
     O.append(('rmtsec', b'm', b'a'))               # no titles
     O.append(('rmsec', b'mt=b'))
@@ -97,7 +100,7 @@ def ops_alphabet(full=True):
     return O
 
 
-def too_big(sec, cap_list=4, cap_sec=3):
+def too_big(sec, cap_list=4, cap_sec=4):
     for o in sec.opts:
         if o.decl.kind == 'sec':
             if len(o.values) > cap_sec:
